@@ -17,6 +17,11 @@ structure Loader where
   effectful : List String := []
   /-- every name `bind_native` knows -/
   knownNatives : List String := []
+  /-- symbols of the real base environment that the model does not define (library code
+      written in the language itself, unmodelled natives): using one is `unsupported` -/
+  baseNames : List String := []
+  /-- bundled module files that were not handed to the model -/
+  bundledNames : List String := []
 deriving Inhabited
 
 def Loader.find (ld : Loader) (modulefile : String) : Option (Except SynErr Node) :=
@@ -207,7 +212,9 @@ def eval : Nat → EnvId → Node → EvalM RVal
     let s ← getS
     match s.lookup env name with
     | some v => pure v
-    | none => throwE ("Symbol '" ++ name ++ "' not defined") pos
+    | none =>
+      if ld.baseNames.contains name then unsupported ("library symbol " ++ name)
+      else throwE ("Symbol '" ++ name ++ "' not defined") pos
   | fuel + 1, env, .and es pos => evalAnd fuel env es pos
   | fuel + 1, env, .or es pos => evalOr fuel env es pos
   | fuel + 1, env, .not e pos => do
@@ -926,7 +933,9 @@ def loadModule : Nat → EnvId → String → String → Pos → EvalM EnvId
       let (s', menv) := s.newEnv (s.base env)
       setS s'
       match ld.find modulefile with
-      | none => throwE ("Module " ++ ((modulefile.splitOn "/").getLast!.dropEnd 4).toString ++ " not found") pos
+      | none =>
+        if ld.bundledNames.contains modulefile.toLower then unsupported ("bundled module " ++ modulefile)
+        else throwE ("Module " ++ ((modulefile.splitOn "/").getLast!.dropEnd 4).toString ++ " not found") pos
       | some (.error e) => failM (.syn e)
       | some (.ok ast) => do
         let _ ← eval fuel menv ast
